@@ -3,7 +3,7 @@
 EXTENDS Integers, Sequences, FiniteSets, TLC, Json
 CONSTANTS MaxConns, MaxMsgs, MaxFaults
 VARIABLE s
-Kinds == {"panic", "bad", "badbody", "toodeep", "eof", "eofmid"}
+Kinds == {"panic", "bad", "badbody", "toodeep", "eof", "eofmid", "eofbody"}
 None == [kind |-> "none", pos |-> 0]
 FaultSets(k, m) == {f \in [1..k -> {None} \cup {[kind |-> kd, pos |-> p] : kd \in Kinds, p \in 1..m}] :
                       Cardinality({c \in 1..k : f[c].kind # "none"}) \in 1..MaxFaults}
@@ -12,8 +12,14 @@ TempPatterns(k) == {[i \in 1..(k + 1) |-> 0], [i \in 1..(k + 1) |-> IF i = 1 THE
                     [i \in 1..(k + 1) |-> IF i = 2 THEN 3 ELSE 0], [i \in 1..(k + 1) |-> IF i = k + 1 THEN 2 ELSE 1]}
 \* a long burst: the back-off reaches its one-second cap (5 ms doubling: the 9th error in a row)
 LongBurst == {[conns |-> 2, msgs |-> 2, faults |-> <<None, [kind |-> "eof", pos |-> 2]>>, temps |-> <<0, 10, 0>>, sm |-> FALSE]}
+\* TLS listener: faults in the TLS handshake (a peer that stalls in it for ever, a peer that fails it) before,
+\* between and after healthy peers; connections are made one after the other, each sends one request
+T(k) == [kind |-> k, pos |-> IF k = "none" THEN 0 ELSE 1]
+TLSOrders == {<<"none", "tlsstall", "none">>, <<"none", "tlsbad", "none">>, <<"tlsstall", "tlsbad", "none", "none">>,
+              <<"tlsstall", "tlsstall", "none">>, <<"tlsbad", "tlsstall", "none">>}
+TLSCases == {[conns |-> Len(o), msgs |-> 1, faults |-> [i \in 1..Len(o) |-> T(o[i])], temps |-> [i \in 1..(Len(o) + 1) |-> 0], sm |-> FALSE] : o \in TLSOrders}
 Cases(k, m) == {[conns |-> k, msgs |-> m, faults |-> f, temps |-> t, sm |-> FALSE] : f \in FaultSets(k, m), t \in TempPatterns(k)}
-Init == s \in UNION {Cases(k, m) : k \in 2..MaxConns, m \in 2..MaxMsgs} \cup LongBurst
+Init == s \in UNION {Cases(k, m) : k \in 2..MaxConns, m \in 2..MaxMsgs} \cup LongBurst \cup TLSCases
          \cup {[conns |-> 2, msgs |-> 2, faults |-> f, temps |-> <<0, 1, 0>>, sm |-> TRUE] : f \in FaultSets(2, 2)}
 Next == UNCHANGED s
 Emit == PrintT(ToJson(s))
